@@ -148,8 +148,9 @@ static void close_stream_endpoint(Sock& s, bool from_kill) {
         s.rx->reader_gone_at = K.now + lat;
         s.rx->reader_gone_dirty = dirty;
         if (dirty) {
-            // unread data (or crash): the peer gets a reset
-            reset_connection(s.rx, s.tx, K.now + lat);
+            // unread data (or crash): the peer gets a reset. It travels the same path as the bytes this
+            // endpoint sent earlier, so it cannot overtake them.
+            reset_connection(s.rx, s.tx, std::max(K.now + lat, s.tx ? s.tx->last_at : 0));
         }
         s.rx->q.clear();
         s.rx->bytes = 0;
